@@ -26,7 +26,7 @@ pub fn spec(prop: &str) -> Option<(&'static str, &'static str, Vec<Config>)> {
     "C04" => ("e1", "as C03 (large scheduled sets first); oracles: at most one execution per task and build, every execution of a previously completed task follows an inconsistent / erroneous verdict on one of its own recorded dependencies in that build, no task executes while a scheduled task it transitively requires (recorded edges) still waits. Non-trivial = a bottom-up session both reused and re-executed tasks.",
       vec![c("bu-big", 300_000, 3_000_000), c("bu-pure", 150_000, 2_000_000), c("bu-allroots", 150_000, 2_000_000), c("bu-big-allroots", 150_000, 1_500_000)]),
     "C05" => ("e1", "class-X programs: a well-formed program plus one injected read of a generated resource without requiring its writer, or one injected write of a resource some other task reads, at any task / depth, optionally guarded by a value-dependent condition; top-down and mixed bottom-up histories; online monitors on the ledger: a read / write that returns must not leave a reader without a require path to the writer; write-side aborts through Context::write happen before the resource is opened; after a returning build every fresh reader reaches the writer. Class-W runs as negative control. Non-trivial = a diagnostic abort happened or a session both reused and re-executed.",
-      vec![c("x-hidden-td", 240_000, 2_500_000), c("x-hidden-bu", 180_000, 2_000_000), c("td", 60_000, 500_000), c("x-hidden-crash-bu", 180_000, 1_500_000)]),
+      vec![c("x-hidden-td", 240_000, 2_500_000), c("x-hidden-bu", 180_000, 2_000_000), c("td", 60_000, 500_000), c("x-hidden-crash-bu", 600_000, 4_000_000)]),
     "C06" => ("e1", "class-X programs with a second writer of a generated resource (through write and through create_writer + written_to), both orders, split across sessions and build modes; class-W programs with writers re-executed through every route, also after crashes; monitors: a write that returns while another task is the recorded writer is a missed detection; at most one writer per resource after a returning build; aborts through Context::write before modification; a writer's own earlier write is never reported. Non-trivial as C05.",
       vec![c("x-overlap-td", 240_000, 2_500_000), c("x-overlap-bu", 180_000, 2_000_000), c("bu-allroots", 60_000, 500_000), c("bu-crash", 120_000, 1_000_000), c("td-crash", 60_000, 500_000), c("x-overlap-crash-bu", 120_000, 1_000_000)]),
     "C07" => ("e1", "class-X programs with an injected back-require closing a cycle of length 1..n, possibly value-dependent and arising in a later session; monitors: a require of a task on the execution stack must not return, must be diagnosed as a cyclic dependency, no task is entered a second time, depth / execution-count guards never fire. Non-trivial as C05.",
